@@ -350,7 +350,10 @@ def var_array(w: dict, v: dict) -> xarray.DataArray:
     data = data.astype(dtype).reshape(shape)
     if v.get("fillattr"):
         attrs[v["fillattr"]] = numpy.dtype(dtype).type(v["fill"])
-    return xarray.DataArray(data, dims=dims, attrs=attrs)
+    da = xarray.DataArray(data, dims=dims, attrs=attrs)
+    if v.get("encoding"):
+        da.encoding.update(v["encoding"])        # on-disk representation (takes effect when the dataset is written)
+    return da
 
 
 # ------------------------------------------------------------------------ builders
